@@ -35,6 +35,10 @@ def space(length):
     return it
 
 
+def valid(case):
+    return e1gen.valid_case(case)
+
+
 def phases(tier):
     if tier == 'quick':
         return [Enumerate('enumeration-len5', space(5), 16, describe='11^5 = 161051 sequences'),
